@@ -50,7 +50,7 @@ def checkDeadline (j : Json) : Except String Verdict := do
 
 /-- C07 "policy before data", on the observed order of events of the real manager: when the lookup exposes the
 resource, every handler registered by then has been run (to completion) on the update that delivered it -/
-def checkHandlersOrder (j : Json) : Except String Verdict := do
+def checkHandlersOrder (pid : String) (j : Json) : Except String Verdict := do
   let o ← j.getObjVal? "obs"
   let n := jStrD j "n" "?"
   let ev ← jStrList o "events"
@@ -105,7 +105,9 @@ def checkHandlersOrder (j : Json) : Except String Verdict := do
     return { nontrivial := true, mismatch := mm, specfail := sf }
   let sf : Option String :=
     match ev.findIdx? (fun e => e.startsWith "get val:") with
-    | none => some s!"C07: the lookup of the delivered resource did not return it: {ev}"
+    | none =>
+      if pid = "C06" then some s!"C06.no_lost_wakeup: the response that supplies {n} was accepted (its update ran the registered handlers) while a lookup of {n} was under way, well before that lookup's deadline, but the lookup did not return it: {ev}"
+      else some s!"C07: the lookup of the delivered resource did not return it: {ev}"
     | some g =>
       match idx "H1 exit" with
       | none => some s!"C07.policy_before_data: the first handler never completed: {ev}"
@@ -149,7 +151,7 @@ def checkKind (j : Json) : Except String Verdict := do
 def check (pid : String) (j : Json) : Except String Verdict := do
   if jStrD j "op" "" = "deadline" then return ← checkDeadline j
   if jStrD j "op" "" = "kind" then return ← checkKind j
-  if jStrD j "op" "" = "handlers-order" then return ← checkHandlersOrder j
+  if jStrD j "op" "" = "handlers-order" then return ← checkHandlersOrder pid j
   let sc ← j.getObjVal? "scenario"
   let names ← jStrList sc "names"
   let tn : Nat → String := fun i => names.getD i "?"
